@@ -25,7 +25,15 @@ type IntV struct {
 	Bits   Layout
 	Why    string
 	ML     *MinLen
-	Tab    *TabRef // (ranges only) the value is Vals[Idx(t)] of a constant table
+	Tab    *TabRef  // (ranges only) the value is Vals[Idx(t)] of a constant table
+	LenOf  string   // (ranges only) the value is the length of this container (a canonical description)
+	SB     *StrByte // (ranges only) the value is byte Idx of string S
+}
+
+// StrByte: one byte of a string value.
+type StrByte struct {
+	S   StrV
+	Idx IntV
 }
 
 // TabRef records that a value was loaded from a constant integer table at an index affine in t.
@@ -203,7 +211,8 @@ const (
 	skDecimal // decimal rendering of integer X
 	skSlice   // substring of a constant with unknown bounds etc.
 	skTop
-	skSrc // the content of an external source: S names the kind ("download"), X is its address
+	skArrElem // element Idx of the local string slice Arr (a snapshot), inside a loop
+	skSrc     // the content of an external source: S names the kind ("download"), X is its address
 )
 
 type StrV struct {
@@ -248,6 +257,8 @@ func (s StrV) String() string {
 		return "decimal(" + s.X.String() + ")"
 	case skSrc:
 		return s.S + "(" + s.X.String() + ")"
+	case skArrElem:
+		return fmt.Sprintf("arr#%d[%s]", s.Arr.id, s.Idx.String())
 	}
 	return "str:⊤(" + s.S + ")"
 }
@@ -350,9 +361,11 @@ type BytesV struct {
 	Param    *ssa.Parameter
 	Pending  ssa.Instruction // the content is the bytes read by this call iff the call returned a nil error
 	PendSrc  string
-	LenMin   *MinLen // when the length is Const + Coef·|Min(v)| (v a big integer whose minimal encoding is involved)
-	WinOf    *Obj    // the value is a window into this buffer object (writes through it change the buffer)
-	WinLo    *IntV   // start of the window (the window extends to the end of the buffer)
+	LenMin   *MinLen  // when the length is Const + Coef·|Min(v)| (v a big integer whose minimal encoding is involved)
+	WinOf    *Obj     // the value is a window into this buffer object (writes through it change the buffer)
+	WinLo    *IntV    // start of the window (the window extends to the end of the buffer)
+	LenSym   string   // the length is that of this container (see IntV.LenOf)
+	CopyOf   *StrByte // inside a loop: the only store so far was buf[Idx] = S[Idx]
 }
 
 // MinLen is the symbolic length Const + Coef·|Min(v)|, |Min(v)| the length of the minimal
@@ -555,7 +568,7 @@ type ErrV struct {
 	Args   []AV
 	From   string
 	Site   ssa.Instruction
-	NonNil bool // certainly non-nil (set for ekFrom on the branch where it was tested)
+	NonNil bool  // certainly non-nil (set for ekFrom on the branch where it was tested)
 	Else   *ErrV // ekCond: the value when the call at Site succeeded
 }
 
@@ -663,6 +676,7 @@ type StoreRec struct {
 
 // ArrC: content of a make([]string, n).
 type ArrC struct {
+	Alias  *TokensV // the slice holds exactly the tokens of Alias, in order (an element-wise copy)
 	N      IntV
 	Elems  []AV // per position once materialised (nil entries: never written → "")
 	Stores []StoreRec
@@ -676,6 +690,9 @@ func (a *ArrC) String() string {
 	}
 	if a.Top != "" {
 		return "arr:⊤(" + a.Top + ")"
+	}
+	if a.Alias != nil {
+		return fmt.Sprintf("arr{copy of %v}", a.Alias)
 	}
 	var sb strings.Builder
 	fmt.Fprintf(&sb, "arr{n=%v", a.N)
